@@ -447,7 +447,7 @@ func (c *Cluster) Coordinator(key string, keyType int8) int32 {
 	if len(ids) == 0 {
 		return -1
 	}
-	h := 0
+	h := int(keyType) * 5 // group and transaction coordinators of the same key string usually differ
 	for _, ch := range []byte(key) {
 		h = h*31 + int(ch)
 	}
